@@ -230,6 +230,15 @@ func Execute(t *testing.T, cfg *RunConfig) *Outcome {
 			defer car.cleanup()
 		}
 	}
+	nestedDetect = func(wf string) {
+		// runner calls made by the tasks the nested detection spawns are not the
+		// observed call's
+		rs.addNested(simrt.CurrentID())
+		nc := RunConfig{Workflow: wf, Stream: StreamSpec{Kind: "prf", Seed: cfg.Stream.Seed ^ 0x5e1f}, Chunk: ChunkSpec{Kind: "full"}, Fault: FaultSpec{Kind: "none"}}
+		nst := BuildStream(nc.Stream, nc.Required())
+		callWorkflow(wf, NewSimSource(nst, &nc, true), 0)
+	}
+	defer func() { nestedDetect = nil }()
 	var handed io.Reader = src
 	if car != nil {
 		handed = car.src
